@@ -91,8 +91,8 @@ class C19(Prop):
         "keyhash_refines_partial", "keyhash_refines_cstrings", "keyhash_refines_mixed", "keyhash_nul_store_answer", "keyhash_string_paths", "keyhash_dump", "keyhash_cstr_of_nulfree", "keyhash_never_faults_partial", "keyhash_refines_jenkins_partial", "keyhash_ops_partial", "keyhash_upsize", "keyhash_fields_in_range_partial", "jenkins_in_range",
         "keyhash_embedded_nul_counterexample", "spec_store", "spec_lookup", "spec_get",
         "keyhash_refines", "keyhash_never_faults", "keyhash_refines_jenkins", "keyhash_ops", "keyhash_key_length", "keyhash_get_cstring", "keyhash_string_paths_repaired", "keyhash_dump_repaired", "keyhash_fields_in_range", "keyhash_embedded_nul_repaired",
-        "heap_history", "heap_insert", "heap_extract", "heap_extract_null", "heap_extract_null_unguarded_faults", "heap_sorts", "heap_drain", "heap_validate", "heap_nalloc_in_range", "heap_grow",
-        "rb_insert", "rb_history", "rb_wf_iff", "rb_height", "rb_lookup", "rb_sorted_linked", "rb_linked_is_reverse_inorder", "rb_lookup_history", "rb_pool_never_twice", "rb_ptr_lookup", "rb_convert_doubly_linked", "rb_convert_null", "rb_convert_passes_list_test", "rb_ops_history",
+        "heap_history", "heap_insert", "heap_extract", "heap_extract_null", "heap_extract_null_unguarded_faults", "heap_sorts", "heap_drain", "heap_validate", "heap_nalloc_in_range", "heap_grow", "heap_duplicates",
+        "rb_insert", "rb_history", "rb_wf_iff", "rb_height", "rb_lookup", "rb_sorted_linked", "rb_linked_is_reverse_inorder", "rb_lookup_history", "rb_pool_never_twice", "rb_ptr_lookup", "rb_convert_doubly_linked", "rb_convert_null", "rb_convert_passes_list_test", "rb_ops_history", "rb_ptr_descend", "rb_ptr_insert_duplicate", "rb_ptr_insert_first",
         "stack_history", "stack_history_shuffles", "stack_no_fault", "stack_threads_atomic", "stack_threads_conservation", "stack_threads_eod_only_after_release", "stack_threads_mutex_progress", "stack_push_pop", "stack_pop_empty", "stack_lifo", "stack_popAll_unfold", "stack_discardTopN", "stack_discardSelected",
         "stack_shuffle", "stack_convert2String", "stack_nalloc_in_range",
         "quicksort_sorts", "quicksort_unguarded_n0_faults")]
@@ -1000,8 +1000,8 @@ class C19(Prop):
                 if l == "bad-op": continue
                 v = ints(kv["v"]); t = kv.get("t", "i")
                 v = sorted((x % 256) if t == "c" else x for x in v)
-                exp = "ok popped=%s left=0 eods=%s" % (fmt_ints(v), kv.get("poppers", "1"))
-                if l != exp: return fail(i, "threads lost / duplicated / invented an item, left one behind, or a popper did not end with exactly one eslEOD; expected %s" % exp[:100])
+                exp = "ok popped=%s left=0 eods=%s early=0" % (fmt_ints(v), kv.get("poppers", "1"))
+                if l != exp: return fail(i, "threads lost / duplicated / invented an item, left one behind, or a popper did not end with exactly one eslEOD, or got eslEOD before ReleaseCond; expected %s" % exp[:100])
             # ---------------- quicksort
             elif name == "qsort":
                 data = ints(kv["data"]); mode = kv.get("mode", "asc")
